@@ -1,1 +1,82 @@
-// access to private items of the parent module (compiled only under --cfg rustdds_verif)
+// access to private items of rtps/dp_event_loop.rs
+use super::*;
+
+impl DPEventLoop {
+  pub(crate) fn verif_add_local_reader(&mut self, i: ReaderIngredients) {
+    self.add_local_reader(i)
+  }
+  pub(crate) fn verif_add_local_writer(&mut self, i: WriterIngredients) {
+    self.add_local_writer(i)
+  }
+  pub(crate) fn verif_remove_local_reader(&mut self, g: GUID) {
+    self.remove_local_reader(g)
+  }
+  pub(crate) fn verif_remove_local_writer(&mut self, g: GUID) {
+    self.remove_local_writer(&g)
+  }
+  /// The dispatch of `event_loop()` for one discovery notification
+  /// (dp_event_loop.rs, DISCOVERY_UPDATE_NOTIFICATION_TOKEN arm).
+  pub(crate) fn verif_notify(&mut self, dnt: DiscoveryNotificationType) {
+    use DiscoveryNotificationType::*;
+    match dnt {
+      WriterUpdated { discovered_writer_data } => self.remote_writer_discovered(&discovered_writer_data),
+      WriterLost { writer_guid } => self.remote_writer_lost(writer_guid),
+      ReaderUpdated { discovered_reader_data } => self.remote_reader_discovered(&discovered_reader_data),
+      ReaderLost { reader_guid } => self.remote_reader_lost(reader_guid),
+      ParticipantUpdated { guid_prefix } => self.update_participant(guid_prefix),
+      ParticipantLost { guid_prefix } => self.remote_participant_lost(guid_prefix),
+      AssertTopicLiveliness { writer_guid, manual_assertion } => {
+        self
+          .writers
+          .get_mut(&writer_guid.entity_id)
+          .map(|w| w.handle_heartbeat_tick(manual_assertion));
+      }
+      #[cfg(feature = "security")]
+      ParticipantAuthenticationStatusChanged { guid_prefix } => {
+        self.on_remote_participant_authentication_status_changed(guid_prefix)
+      }
+    }
+  }
+  pub(crate) fn verif_writer_matches(&self, eid: EntityId) -> Vec<GUID> {
+    self.writers.get(&eid).map(|w| w.verif_matched()).unwrap_or_default()
+  }
+  pub(crate) fn verif_reader_matches(&self, eid: EntityId) -> Vec<GUID> {
+    self
+      .message_receiver
+      .available_readers
+      .get(&eid)
+      .map(|r| r.verif_matched())
+      .unwrap_or_default()
+  }
+  pub(crate) fn verif_writer_mut(&mut self, eid: EntityId) -> Option<&mut Writer> {
+    self.writers.get_mut(&eid)
+  }
+  pub(crate) fn verif_receiver_mut(&mut self) -> &mut MessageReceiver {
+    &mut self.message_receiver
+  }
+  /// what `handle_writer_acknack_action` does
+  pub(crate) fn verif_pump_acknacks(&mut self) {
+    while let Ok((prefix, sm)) = self.ack_nack_receiver.try_recv() {
+      if let Some(w) = self.writers.get_mut(&sm.writer_id()) {
+        if w.is_reliable() {
+          w.handle_ack_nack(prefix, &sm);
+        }
+      }
+    }
+  }
+  pub(crate) fn verif_digest(&self) -> String {
+    let mut w: Vec<String> = self
+      .writers
+      .values()
+      .map(|w| format!("W{:?}=>{}", w.guid().entity_id, w.verif_digest()))
+      .collect();
+    w.sort();
+    let r: Vec<String> = self
+      .message_receiver
+      .available_readers
+      .values()
+      .map(|r| format!("R{:?}=>{}", r.guid().entity_id, r.verif_digest()))
+      .collect();
+    format!("{w:?} {r:?}")
+  }
+}
